@@ -25,7 +25,7 @@ RULE = ("BFS over histories of {resource writes 1 byte / the rest, resource fini
         "windows (by WINDOW_UPDATE, and - when something is blocked - separately by SETTINGS alone / by a connection WINDOW_UPDATE alone where that suffices), the loop runs to quiescence: all bytes written so "
         "far must arrive and paused producers must be resumed (and, with nothing granted at all, the loop runs until it idles: progress must "
         "equal the granted window - written bytes may be held back and a producer stay paused only while the stream or connection window "
-        "of the ledger is exhausted); then the resources finish and every body must arrive complete, in order, ended. "
+        "of the ledger is exhausted, and END_STREAM must follow a finished, fully sent body without any further grant); then the resources finish and every body must arrive complete, in order, ended. "
         "non-trivial = distinct canonical states in which a stream was blocked on flow control (queued data the window does not admit, a paused "
         "producer, or a window <= 0)")
 BOUNDS = {
@@ -500,6 +500,10 @@ class St:
         """something waits for a window to open (harness-side knowledge only)"""
         return any((r.prod is not None and r.prod.paused and not r.finished) or r.written > len(r.sent) for r in self.s)
 
+    def end_pending(self):
+        """a finished response whose END_STREAM the server has not written yet"""
+        return any(r.finished and r.sid not in self.srv_ended for r in self.s)
+
     def all_done(self):
         return all(r.cl_ended and bytes(r.got) == r.body for r in self.s)
 
@@ -611,6 +615,17 @@ def _progress(st):
         room = min(st.ref_win[r.sid], st.ref_conn)
         unsent = r.written - len(r.sent)
         asleep = r.prod is not None and r.prod.paused and not r.finished
+        if r.finished and unsent == 0 and r.sid not in st.srv_ended:
+            # END_STREAM (an empty DATA frame) needs no flow-control credit: once the resource has finished and every body
+            # byte is out, it must follow without any further grant, whatever the windows are
+            act = getattr(st.srv.priority, "_active", {}).get(r.sid)
+            sig = _loop_sig(st) if st.loop_exc else "H2Connection:END_STREAM-withheld-after-finish-with-body-fully-sent:%s:%s" % (
+                "window-exhausted" if room <= 0 else "window-open",
+                {True: "stream-unblocked-but-send-loop-idle", False: "stream-left-blocked-in-priority-tree"}.get(act, "?"))
+            out.append((sig, "stream %d (%s, body %d): finish() was called and all %d body bytes were sent, the loop idles, but END_STREAM was "
+                        "not sent (stream window %d, connection %d); %s" % (
+                            r.sid, r.mode, r.size, len(r.sent), st.ref_win[r.sid], st.ref_conn, hints)))
+            continue
         if room <= 0 or not (unsent > 0 or asleep):
             continue
         if st.loop_exc:
@@ -857,8 +872,9 @@ def run_shard(shard, tier, seed):
             stats.outcome("loop-scheduled-while-blocked")
         if st.all_done():
             stats.outcome("all-bodies-complete")
-        if blocked:
+        if blocked or st.end_pending():
             judge(build(cfg, hist), hist, "run")
+        if blocked:
             judge(build(cfg, hist), hist, "set")
             if conn_only(st):
                 stats.outcome("only-connection-window-blocks")
